@@ -581,8 +581,12 @@ static R LPFreadValue(char*& pos, SPxOut* spxout)
       value = (*pos == '-') ? -1.0 : 1.0;
    else
    {
+      // the token may be longer than the buffer; the excess digits are dropped instead of written past its end
       for(t = tmp; pos != s; pos++)
-         *t++ = *pos;
+      {
+         if(t < tmp + SOPLEX_LPF_MAX_LINE_LEN - 1)
+            *t++ = *pos;
+      }
 
       *t = '\0';
       value = atof(tmp);
@@ -623,8 +627,12 @@ static int LPFreadColName(char*& pos, NameSet* colnames, LPColSetBase<R>& colset
    while((strchr("+-.<>= ", *s) == nullptr) && (*s != '\0'))
       s++;
 
-   for(i = 0; pos != s; i++, pos++)
-      name[i] = *pos;
+   // a name longer than the buffer is truncated instead of written past the end of the buffer
+   for(i = 0; pos != s; pos++)
+   {
+      if(i < SOPLEX_LPF_MAX_LINE_LEN - 1)
+         name[i++] = *pos;
+   }
 
    name[i] = '\0';
 
@@ -762,7 +770,10 @@ static inline bool LPFhasRowName(char*& pos, NameSet* rownames)
    int k = 0;
 
    for(i = srt; i <= end; i++)
-      name[k++] = pos[i];
+   {
+      if(k < SOPLEX_LPF_MAX_LINE_LEN - 1)
+         name[k++] = pos[i];
+   }
 
    name[k] = '\0';
 
